@@ -3,7 +3,7 @@ from ._r import run_r, replay_r
 from ..acceptors_r import acc_C05, make_holdings_observer
 from ..scenarios_r import base_family
 
-WIT = ["round_with_fills", "multi_fill_round", "round_with_4_fills", "self_trade", "observation_points"]
+WIT = ["round_with_fills", "multi_fill_round", "round_with_4_fills", "self_trade", "fill_at_price_zero", "observation_points"]
 RULE = ("deviation-bounded enumeration of all executions of the real SequentialRunner around each base scenario (every "
         "permutation handed out by sample(), every rate draw, every menu choice of every scripted agent); at every observation point (each consultation, callback, step record, and the end of the run) every agent's cash and share positions are compared with its endowment folded in order with the ground-truth fills so far, and totals are checked for conservation; "
         "distinct = distinct outcome digests")
